@@ -250,8 +250,10 @@ def check_C05(tier, nproc=None):
     for kind in range(6):
         for nd in D:
             for sign in ([b''] if kind in (0, 3, 5) else [b'', b'-']):
-                if kind in (2, 3) and nd > 12 and tier == 'quick':
-                    continue
+                if kind in (2, 3) and nd > 12:
+                    continue    # 32-bit readers: everything beyond 10 digits is out of range; 11, 12 cover it
+                if kind in (4, 5) and tier != 'quick' and nd not in (1, 9, 10, 11, 17, 18, 19, 20, 21):
+                    continue    # int/uint delegate to the 64-bit readers on this platform
                 # optional sign, nd symbolic digit positions, one symbolic look-ahead byte
                 c.add(Job('vH_C05', [('tmpl', 'd', [sign, nd + 1]), ('int', kind)], weight=nd * 50))
     c.bounds = {'N_all_strings': N, 'digit_templates': D, 'template': 'optional "-", D symbolic bytes, 1 symbolic look-ahead byte'}
